@@ -135,6 +135,9 @@ def run(ctx):
     ]
     for cfg, depth in configs(ctx):
         cachebfs.explore(ctx, cfg, WANT, depth, state_cap=600000)
+    if ctx.quick:
+        # the only kind of geometry in which tag 0 (the tag of a never-filled way) belongs to a valid data address
+        cachebfs.explore(ctx, Cfg(12, 1, 1, ("wb", "wt")[ctx.seed % 2], "lru", 0, "word", False, "base"), WANT, 1)
     ctx.require("cache-eviction", "cache-fill", "rejected")
     for L in range(1, (3 if ctx.quick else 4) + 1):
         t0 = time.time()
